@@ -529,7 +529,7 @@ func runIsolation(c *ICase) (string, bool) {
 	wg.Wait()
 	if c.SharedCtx {
 		zerolog.Ctx(sharedCtx).Info().Msg("probe")
-		if got, want := sharedOut.String(), "{\"level\":\"info\",\"shared\":\"base\",\"message\":\"probe\"}\n"; got != want {
+		if got, want := string(zerolog.VerifDecodeIfBinaryToBytes(sharedOut.Bytes())), "{\"level\":\"info\",\"shared\":\"base\",\"message\":\"probe\"}\n"; got != want {
 			return fmt.Sprintf("the logger carried by the requests' shared base context changed: it now emits %q, want %q", got, want), overlapped >= 2
 		}
 	}
